@@ -209,7 +209,50 @@ JOURNAL_FNS = [
     ("journal.cc:validate_payee", r"string\s+journal_t::validate_payee\s*\([^)]*\)\s*\{"),
     ("journal.cc:should_check_payees", r"bool\s+journal_t::should_check_payees\s*\(\s*\)\s*\{"),
     ("journal.cc:register_commodity", r"void\s+journal_t::register_commodity\s*\([^)]*\)\s*\{"),
+    ("journal.cc:register_payee", r"string\s+journal_t::register_payee\s*\([^)]*\)\s*\{"),
+    ("journal.cc:payee_not_registered", r"bool\s+journal_t::payee_not_registered\s*\([^)]*\)\s*\{"),
+    ("journal.cc:register_metadata", r"void\s+journal_t::register_metadata\s*\([^{;]*\)\s*\{"),
+    ("journal.cc:check_all_metadata", r"void\s+check_all_metadata\s*\([^{;]*\)\s*\{"),
 ]
+# where the `known` state of names is created / inherited / set
+KNOWN_FNS = {
+    "account.cc": [("account.cc:account_t::find_account", r"account_t\s*\*\s*account_t::find_account\s*\(\s*const\s+string\s*&\s*acct_name[^)]*\)\s*\{")],
+    "textual.cc": [
+        ("textual.cc:instance_t::payee_directive", r"void\s+instance_t::payee_directive\s*\(\s*char\s*\*\s*line\s*\)\s*\{"),
+        ("textual.cc:instance_t::commodity_directive", r"void\s+instance_t::commodity_directive\s*\(\s*char\s*\*\s*line\s*\)\s*\{"),
+        ("textual.cc:instance_t::tag_directive", r"void\s+instance_t::tag_directive\s*\(\s*char\s*\*\s*line\s*\)\s*\{"),
+        ("textual.cc:instance_t::nomarket_directive", r"void\s+instance_t::nomarket_directive\s*\(\s*char\s*\*\s*line\s*\)\s*\{"),
+        ("textual.cc:instance_t::default_commodity_directive", r"void\s+instance_t::default_commodity_directive\s*\(\s*char\s*\*\s*line\s*\)\s*\{"),
+    ],
+}
+
+
+def known_flag_sites():
+    """Shapes (not whole bodies: these routines are edited for other properties) of the places
+    where a name is checked against / entered into the `known` sets."""
+    t = strip_comments(src("textual.cc"))
+    ad = function_body(t, r"void\s+instance_t::account_directive\s*\(\s*char\s*\*\s*line\s*\)\s*\{")
+    need(re.search(r"context\.journal->register_account\s*\(\s*p\s*,\s*NULL\s*,\s*top_account\(\)\s*\)", ad),
+         "textual.cc account_directive: register_account(p, NULL, top_account()) not found")
+    need(len(re.findall(r"register_account\s*\(\s*name\s*,\s*post\.get\(\)\s*,\s*account\s*\)", t)) == 1,
+         "textual.cc parse_post: register_account(name, post.get(), account) not found exactly once")
+    need(len(re.findall(r"if\s*\(\s*!\s*post->amount\.is_null\(\)\s*&&\s*post->amount\.has_commodity\(\)\s*\)\s*\{\s*"
+                        r"context\.journal->register_commodity\s*\(\s*post->amount\.commodity\(\)\s*,\s*post\.get\(\)\s*\)\s*;", t)) == 1,
+         "textual.cc parse_post: register_commodity(post->amount.commodity(), post.get()) not found exactly once")
+    need(re.search(r"xact->payee\s*=\s*context\.journal->validate_payee\s*\(\s*next\s*\)\s*;", t),
+         "textual.cc parse_xact: xact->payee = validate_payee(next) not found")
+    n_cost = len(re.findall(r"register_commodity\s*\(\s*post->(?:given_)?cost->commodity\(\)", t))
+    j = strip_comments(src("journal.cc"))
+    ax = function_body(j, r"bool\s+journal_t::add_xact\s*\(\s*xact_t\s*\*\s*xact\s*\)\s*\{")
+    need(re.search(r"check_all_metadata\s*\(\s*\*this\s*,\s*xact\s*\)", ax) and re.search(r"check_all_metadata\s*\(\s*\*this\s*,\s*post\s*\)", ax),
+         "journal.cc add_xact: check_all_metadata(*this, xact / post) not found")
+    need(ax.find("finalize") < ax.find("check_all_metadata"), "journal.cc add_xact: metadata is no longer checked after finalize")
+    pl = strip_comments(src("pool.cc"))
+    pp = function_body(pl, r"commodity_pool_t::parse_price_directive\s*\([^{;]*\)\s*\{")
+    need(re.search(r"commodity->add_flags\s*\(\s*COMMODITY_KNOWN\s*\)", pp), "pool.cc parse_price_directive: COMMODITY_KNOWN no longer set by a P line")
+    n_lot = len(re.findall(r"register_commodity\s*\([^;]*annotation\(\)[^;]*price", t))
+    return dict(cost_commodity_checked=n_cost > 0, lot_commodity_checked=n_lot > 0)
+
 SESSION_FNS = [
     ("session.cc:read_journal_files", r"journal_t\s*\*\s*session_t::read_journal_files\s*\(\s*\)\s*\{"),
 ]
@@ -227,6 +270,9 @@ def gen_error_fns():
     pairs = pin_functions("textual.cc", TEXTUAL_FNS) + pin_functions("global.cc", GLOBAL_FNS) + \
         pin_functions("journal.cc", JOURNAL_FNS) + pin_functions("session.cc", SESSION_FNS) + \
         pin_functions("error.cc", ERROR_FNS)
+    for fname, sigs in KNOWN_FNS.items():
+        pairs += pin_functions(fname, sigs)
+    known_flag_sites()
     ch = strip_comments(src("context.h"))
     pairs.append(("context.h:parse_context_t::location", norm_ws(function_body(ch, r"string\s+location\s*\(\s*\)\s*const\s*\{"))))
     eh = strip_comments(src("error.h"))
